@@ -44,6 +44,8 @@ RULES = [
      r"is_some|is_none|is_ok|is_err|is_some_and|is_ok_and|is_err_and|is_none_or|unwrap_or|unwrap_or_else|unwrap_or_default|"
      r"as_ref|as_mut|as_deref|copied|cloned|filter|flatten|take|replace|zip|xor|iter|transpose|inspect|inspect_err|get_or_insert\w*|insert)$",
      TOTAL, "total combinator (given a total closure, which is analysed as its own body)"),
+    (r"^ffi::CStr::(from_bytes_until_nul|from_bytes_with_nul|to_bytes|to_bytes_with_nul|count_bytes|is_empty|to_str|as_ptr)$", TOTAL,
+     "total: the constructors return a Result, the accessors cannot fail"),
     (r"^\[T\]::(get|get_mut|len|is_empty|iter|iter_mut|first|last|split_first|split_last|starts_with|ends_with|contains|"
      r"split_at_checked|split_at_mut_checked|to_vec|as_ptr|binary_search\w*|strip_prefix|strip_suffix|fill|reverse|concat|join|"
      r"sort\w*|iter\w*|is_sorted\w*|as_array|trim_ascii\w*|is_ascii|eq_ignore_ascii_case)$",
